@@ -12,6 +12,7 @@ def handle (line : String) : String :=
   | "PLE" :: rest => Path.leLine rest
   | "NDIST" :: rest => Dist.ndistLine rest
   | "HASH" :: rest => Hash.hashLine rest
+  | "DIFF" :: rest => Diff.diffLine rest
   | "SAVEFS" :: rest => SaveFS.saveLine Wire.decStr Wire.encStr rest
   | _ => "bad-op"
 
